@@ -1349,7 +1349,7 @@ def chunked_transfer(ctx):
     buf = io.BytesIO()
     np.save(buf, arr)
     body = buf.getvalue()
-    mode = {'cut': None, 'pieces': 1}
+    mode = {'cut': None, 'pieces': 1, 'framing': 'chunked'}
 
     def serve(sock):
         while True:
@@ -1369,6 +1369,11 @@ def chunked_transfer(ctx):
                     xml = b'<?xml version="1.0"?><ListBucketResult><Contents><Key>x</Key></Contents></ListBucketResult>'
                     c.sendall(b'HTTP/1.1 200 OK\r\nContent-Type: application/xml\r\nContent-Length: %d\r\n'
                               b'Connection: close\r\n\r\n' % len(xml) + xml)
+                    continue
+                if mode['framing'] == 'close':
+                    # neither Content-Length nor chunked: the body ends where the connection is closed (HTTP/1.0 style)
+                    out = body if mode['cut'] is None else body[:mode['cut']]
+                    c.sendall(b'HTTP/1.0 200 OK\r\nContent-Type: application/octet-stream\r\n\r\n' + out)
                     continue
                 out = b''
                 n = mode['pieces']
@@ -1395,9 +1400,11 @@ def chunked_transfer(ctx):
         total = len(body) + 40
         cuts = [None, 0, 3, 5, 9, 60, 130, 131, 133, len(body) + 4, len(body) + 7] + \
                [ctx.rng.randrange(1, total) for _ in range(ctx.q(6, 60))]
-        for pieces in (1, 3):
+        for pieces in (1, 3, 0):
             for cut in cuts:
-                mode['cut'], mode['pieces'] = cut, pieces
+                if pieces == 0 and cut is not None and cut >= len(body):
+                    continue
+                mode['cut'], mode['pieces'], mode['framing'] = cut, max(pieces, 1), ('close' if pieces == 0 else 'chunked')
                 store = S3ChunkStore(f'http://127.0.0.1:{port}', timeout=(20, 20), retries=0)
                 case = dict(kind='chunked-transfer', cut=cut, pieces=pieces)
                 what = None
@@ -1419,12 +1426,59 @@ def chunked_transfer(ctx):
                     what = (f'chunked transfer encoding, body cut at byte {cut} ({pieces} piece(s)): a bare '
                             f'{type(e).__module__}.{type(e).__name__} escapes, which is neither a missing chunk nor a '
                             f'chunk-store error')
-                ctx.tag('s3-chunked-transfer' + ('-complete' if cut is None else '-cut'))
+                ctx.tag(('s3-close-framed' if pieces == 0 else 's3-chunked-transfer') + ('-complete' if cut is None else '-cut'))
                 ctx.count(('chunked-transfer', cut, pieces), cut is not None, sample={'kind': 'chunked-transfer', 'cut': cut})
                 if what:
                     bad.append((case, what))
     finally:
         sock.close()
+    return bad
+
+
+def inferred_store(ctx):
+    """A data set opened by its RDB file gets the NPY store next to the file only if the chunk directory is there;
+    a missing directory with an unreachable S3 endpoint is an unavailable store (the load fails), not an NPY store
+    whose every chunk is missing (zeros + data_lost)."""
+    import urllib.parse as up
+    from katdal.chunkstore import StoreUnavailable
+    from katdal.datasources import infer_chunk_store
+    bad = []
+    root = tempfile.mkdtemp(prefix='c08infer')
+    try:
+        os.makedirs(os.path.join(root, 'cb'))
+        rdb = os.path.join(root, 'cb', 'cb_sdp_l0.rdb')
+        open(rdb, 'wb').close()
+        telstate = {'chunk_info': {'correlator_data': {'prefix': 'cb-sdp-l0'}}, 's3_endpoint_url': 'http://127.0.0.1:9'}
+        for present in (False, True):
+            if present:
+                os.makedirs(os.path.join(root, 'cb-sdp-l0', 'correlator_data'))
+            case = dict(kind='inferred-store', directory_present=present)
+            what = None
+            try:
+                store = infer_chunk_store(up.urlparse('file://' + rdb), telstate, timeout=(0.5, 0.5), retries=0)
+                if present and not isinstance(store, NpyFileChunkStore):
+                    what = f'chunk directory next to the RDB file is there but the store is a {type(store).__name__}'
+                if not present:
+                    try:
+                        store.get_chunk('cb-sdp-l0/correlator_data', (slice(0, 1),), np.dtype('u1'))
+                        what = 'no chunk directory next to the RDB file and an unreachable S3 endpoint: a chunk was returned'
+                    except StoreUnavailable:
+                        pass
+                    except Exception as e:   # noqa: BLE001
+                        what = (f'no chunk directory next to the RDB file and an unreachable S3 endpoint: reading a chunk '
+                                f'gives {type(e).__name__} (with the NPY store inferred every chunk is "missing" and the '
+                                f'load zero-fills it), StoreUnavailable is due')
+            except StoreUnavailable:
+                if present:
+                    what = 'chunk directory present but the store is unavailable'
+            except Exception as e:   # noqa: BLE001
+                what = f'infer_chunk_store raised {type(e).__name__}: {str(e)[:100]}'
+            ctx.tag('inferred-store')
+            ctx.count(('inferred-store', present), True, sample={'kind': 'inferred-store', 'present': present})
+            if what:
+                bad.append((case, what))
+    finally:
+        shutil.rmtree(root, ignore_errors=True)
     return bad
 
 
@@ -1435,6 +1489,7 @@ def run(ctx):
     try:
         bad = evaluate(ctx, all_cases(ctx), env)
         bad += chunked_transfer(ctx)
+        bad += inferred_store(ctx)
         if not bad and not build['build_ok']:
             bad = evaluate(ctx, all_cases(ctx, scale=4), env)
     finally:
@@ -1453,7 +1508,9 @@ def replay(ctx, rep):
     env = Env()
     try:
         c = dict(rep['case'])
-        if c.get('kind') == 'chunked-transfer':
+        if c.get('kind') == 'inferred-store':
+            bad = inferred_store(ctx)
+        elif c.get('kind') == 'chunked-transfer':
             bad = [b for b in chunked_transfer(ctx) if b[0]['cut'] == c['cut'] and b[0]['pieces'] == c['pieces']]
         elif c.get('kind') == 'trunc' and 'offset' in c:
             want = c['offset']
